@@ -232,6 +232,9 @@ Loop:
 		case optionKindNop: // 1 byte padding
 			opt.OptionLength = 1
 		default:
+			if len(data) < 2 {
+				return fmt.Errorf("TCP option %d without length", opt.OptionType)
+			}
 			opt.OptionLength = data[1]
 			if opt.OptionLength < 2 {
 				return fmt.Errorf("Invalid TCP option length %d < 2", opt.OptionLength)
